@@ -38,6 +38,8 @@
 -/
 import Driver.Common
 import KmipModel.Model.Negotiate
+import KmipModel.Gen.Schema
+import KmipModel.Model.Registry
 open Kmip.Resp Kmip.Nego
 
 namespace Driver
@@ -136,7 +138,7 @@ def hex8 (v : Nat) : String :=
   "0x" ++ String.ofList ((List.range 8).reverse.map fun i => hexDigit (v / 16 ^ i % 16))
 
 def renderEStr : EStr → String
-  | .name c => nameOfCode c
+  | .name c => String.ofList ((Kmip.Reg.unpack c).map Char.ofNat)  -- live registry names carry a leading 0x01
   | .hex v => hex8 v
 
 def renderLine : ItemErr → String
@@ -260,7 +262,8 @@ def handleClient (cmd arg : String) : Option String :=
     | _ => "bad-op"
   | "resp.registered" => some <|
     match arg.toNat? with
-    | some o => if o ∈ registeredOps then "yes" else "no"
+    -- the live payload registry, regenerated by reflection (Gen.Schema.ops)
+    | some o => if o ∈ Kmip.Gen.ops.map (·.1) then "yes" else "no"
     | none => "bad-op"
   | _ => none
 
